@@ -110,6 +110,9 @@ _k('rv_mod3', 'rec')(lambda r: r.v % 3)
 _k('rv_div2big', 'rec')(lambda r: 10 ** 20 + r.v // 2)
 _k('rv_tup', 'rec')(lambda r: (r.v % 2, str(r.v % 2)))
 _k('rv_flt', 'rec')(lambda r: (r.v % 3) / 2)
+_k('rv_mixed', 'rec')(lambda r: [1, 1.0, True, 2, 2.0, None][r.v % 6])     # 1 == 1.0 == True: one group
+_k('rv_zero', 'rec')(lambda r: [0.0, -0.0, 0, False, ''][r.v % 5])            # 0.0 == -0.0 == 0 == False, '' differs
+_k('rv_nest', 'rec')(lambda r: ((r.v % 2, (r.v % 3,)), frozenset([r.v % 2])))
 _k('rn_div3', 'rec')(lambda r: 'run-%d' % (r.n // 3))
 _k('pk0', 'pair')(lambda p: p[0] % 3)
 _k('fk', 'float')(lambda v: int(v) % 3)
@@ -158,6 +161,9 @@ ACCS = {
     'r_sum': (lambda a, r: a + r.v, 'rec', 'int', False),
     'r_cnt': (lambda a, r: a + 1, 'rec', 'int', False),
     'r_list': (lambda a, r: a + [r.v], 'rec', 'list', False),
+    # an accumulator that legitimately returns None now and then ("reset"); only with factory seeds, so that the
+    # multiplexed state lives in an object list (a typed array could not hold None)
+    'nreset': (lambda a, i: None if i % 4 == 3 else (0 if a is None else a) + i, 'int', 'optfac', False),
 }
 
 # seed name -> (seed object passed to rs.ops.scan, state_type)
@@ -175,6 +181,8 @@ SEEDS = {
     'dq_fac': (lambda: _mk_deque, 'deque', True),
     't00': (lambda: (0, 0), 'tup2', False),
     't_empty': (lambda: (), 'tup', False),
+    'fac5': (lambda: (lambda: 5), 'optfac', True),
+    'fac_none': (lambda: (lambda: None), 'optfac', True),
 }
 
 
@@ -198,6 +206,7 @@ TERMS = {
     'rev_t': (lambda a: list(reversed(a)), 'list'),
     'same_t': (lambda a: a, 'dict'),
     'tail_t': (lambda a: a + (-1,), 'tup'),
+    'none_t': (lambda a: None if a is not None and a % 2 else a, 'optfac'),
 }
 
 
@@ -207,7 +216,7 @@ def terms_for(state_type):
 
 # what item type a scan state becomes once emitted
 STATE_ITEM_TYPE = {'int': 'int', 'float': 'float', 'bool': 'any', 'list': 'list',
-                   'dict': 'any', 'deque': 'any', 'tup': 'any', 'tup2': 'any'}
+                   'dict': 'any', 'deque': 'any', 'tup': 'any', 'tup2': 'any', 'optfac': 'optint'}
 
 
 # ---- functions handed to rxsci by the program builder (kept here so that an exception raised inside them is
@@ -222,6 +231,14 @@ def time_of(r):
 
 def time_of_dt(r):
     return _EPOCH + _td(seconds=r.t)
+
+
+def time_of_hours(r):
+    return _EPOCH + _td(hours=r.t)
+
+
+def time_of_days(r):
+    return _EPOCH + _td(days=r.t, microseconds=r.t)
 
 
 def closing_of(r):
